@@ -161,6 +161,8 @@ def overflow_attr(kind, op, tag, diag):
     """which properties an event of this kind counts for / a rejection with this diagnosis belongs to"""
     if tag in ("native", "undefined"):
         return ["C12"]
+    if kind == "OvConvF" and diag is not None:
+        return ["C07"] if diag in ("ub", "unreachable", "timeout") else ["C06"]
     if diag is None:
         return ["C06", "C07"]
     if diag in ("ub", "unreachable", "timeout"):
@@ -846,7 +848,8 @@ CHECKS = {
                "clang++; rejected events must additionally equal the as-coded model to count as the listed known findings. "
                "MC_Overflow proves on a scaled-down machine that the as-coded detection has no deviation outside those classes.",
                "bounded: 8-bit operands exhaustive (thorough), wider operands boundary^2 + seeded random; floating-point "
-               "sources not yet covered",
+               "sources (float/double/long double -> every integer type) around both range bounds, with the ambiguity band "
+               "max < x < max+1 accepted either way",
                ["UBSan trap mode observes every UB the sanitizer knows; other UB is not observed",
                 "trapping is observed in-process through the JOHNMCFARLANE_CNL_VERIF abort hook"]),
     "C07": chk(["overflow"], ["overflow"],
